@@ -19,8 +19,8 @@ PROPERTY_FIELDS = {"name": "_name", "version": "_version", "modes": "_modes", "t
                    "variables": "_var", "program": "_program"}
 
 
-OBJECT_METHODS = {"removeErrorListeners", "addErrorListener", "start", "walk"}
-SPEC_PREDS = {"IS_COMPLEXKIND": "is_complexkind", "IS_INTKIND": "is_intkind", "IS_NEGATIVE": "is_negative", "IS_DICT": "is_dict"}
+OBJECT_METHODS = {"removeErrorListeners", "addErrorListener", "start", "walk", "add_node", "add_edge", "write"}
+SPEC_PREDS = {"IS_CTX": "is_ctx", "IS_COMPLEXKIND": "is_complexkind", "IS_INTKIND": "is_intkind", "IS_NEGATIVE": "is_negative", "IS_DICT": "is_dict"}
 
 
 class Contract:
@@ -232,7 +232,7 @@ class Ctx:
             return ClassRef("func:" + n)
         if n in self.module_consts:
             return self._const_value(self.module_consts[n])
-        if n[:1].isupper() and (n.endswith("Context") or n.endswith("Transform") or n.endswith("Program") or n.endswith("Listener") or n == "Command"):
+        if n[:1].isupper() and (n.endswith("Context") or n.endswith("Transform") or n.endswith("Program") or n.endswith("Listener") or n.endswith("Error")):
             return ClassRef(n)
         if ex.side != "real" and n.isupper():
             return ClassRef("func:" + n)
@@ -618,7 +618,8 @@ class Ctx:
         for nm in params:
             if nm not in binding:
                 if nm in defaults:
-                    binding[nm] = PyC(defaults[nm])
+                    dv = defaults[nm]
+                    binding[nm] = ClassRef(dv[6:]) if isinstance(dv, str) and dv.startswith("class:") else PyC(dv)
                 elif starkw is not None:
                     binding[nm] = app("starkw_get", asV(starkw), asV(PyC(nm)))
                 else:
@@ -651,7 +652,8 @@ class Ctx:
 
     # ------------------------------------------------------------------------------------------------ while (contract-given invariant)
     def whileloop(self, ex, s, p):
-        raise Unsupported("while loop", s)
+        from .postcheck import whileloop
+        return whileloop(self, ex, s, p)
 
 
 def ex_env_names(ex):
